@@ -150,8 +150,8 @@ Theorem c19_translated_ops_lock_once_model :
   end.
 Proof. exact translated_ops_lock_once_model. Qed.
 
-(* StripStream driven directly (anstream::StripStream is public): the four translated methods and the
-   pinned write_vectored *)
+(* StripStream driven directly (anstream::StripStream is public): the five translated methods (write_vectored takes no
+   lock itself and delegates once to `self.write`) *)
 Theorem c19_translated_strip_lock_once :
   forall x,
   (forall buf, gl_ss_write x buf =
